@@ -186,6 +186,7 @@ CLAIMS = {
            'noise_scheduler.py / grad_clip_scheduler.py on every run; stated over an arbitrary number instance, so for binary64 they are the '
            'bit-exact statement, and over R they give the power forms. "The value in force is what is used" (clipping, noise std, accountant '
            'record) is a theorem on the optimizer state machine generated from optimizer.py. The generated code is additionally run on binary64 '
-           'inside Coq against the real schedulers (equality of trajectories) and the property is tested directly on the real optimizer.'),
+           'inside Coq against the real schedulers (equality of trajectories) and the property is tested directly on the real optimizers (flat and per-layer; for per-layer clipping the '
+           'generated bounds in force are proved to have joint norm = the scheduled max_grad_norm; one repaired defect).'),
  },
 }
